@@ -55,7 +55,30 @@ def make_toml(general=None, pools=None, plugins=None):
     return "\n".join(out) + "\n"
 
 
+RESOURCE_ERRORS = ("Address already in use", "os error 98", "Cannot assign requested address", "os error 99", "AddrInUse", "AddrNotAvailable",
+                   "Too many open files", "os error 24")
+
+
 def run_scenario(wire, scn, timeout=60):
+    """One scenario in its own harness process.  A failure to get a local TCP port (the ephemeral range is finite and
+    thousands of scenarios per minute leave sockets in TIME_WAIT) is an accident of the machine, not an observation of
+    the pooler: such a run is repeated after a pause."""
+    import time
+    for attempt in range(6):
+        res = _run_scenario_once(wire, scn, timeout)
+        err = str(res.get("start_error") or res.get("harness_error") or "")
+        if err and any(x in err for x in RESOURCE_ERRORS) and attempt < 5:
+            time.sleep(2 + 3 * attempt)
+            continue
+        if err.startswith("no output rc=101") and attempt < 2:
+            # the harness's own main thread panicked before it could report (typically an unwrap on a socket it could not get)
+            time.sleep(2)
+            continue
+        return res
+    return res
+
+
+def _run_scenario_once(wire, scn, timeout=60):
     scn = dict(scn)
     scn.setdefault("tmpdir", vlib.TMP)
     try:
